@@ -251,6 +251,18 @@ impl TopicCleanTracker {
         self.store.persist_updates(&updates)
     }
 
+    /// Write the current state of every topic to the marker store, synchronously.
+    pub fn flush_all(&self) -> std::io::Result<()> {
+        let snapshot = match self.states.read() {
+            Ok(guard) => guard
+                .iter()
+                .map(|(topic, state)| (topic.clone(), state.snapshot()))
+                .collect::<Vec<_>>(),
+            Err(_) => return Ok(()),
+        };
+        self.store.persist_updates(&snapshot)
+    }
+
     #[cfg(test)]
     pub fn force_flush_for_test(&self) -> std::io::Result<()> {
         let snapshot = {
